@@ -50,6 +50,13 @@ CLAIMED = {
              "ownership; raw lock primitives are called only from the map classes (whole program). Cross-process visibility is NOT decided.",
         technique="BALANCE path summaries with lock-primitive contracts + CFG dominance + whole-program who-calls",
         design="5/C55"),
+    "C58": dict(
+        text="For every class with pack(TypedMsgHdr&) (>=20 classes in ipc/, mgr/, snmp/, DiskIO, SBufStats) the source-ordered sequence of "
+             "message operations in pack() and in its unpack()/unpacking constructor correspond one-to-one (type tag value, pod operand type, "
+             "fixed size expression, string/fd/raw, nested member class); getRaw/putRaw copy only past the size Must(); getString bounds the "
+             "length by the stack buffer size before copying; checkType throws on mismatch. Value round-trip itself is not decided.",
+        technique="sibling-implementation agreement (SIBLING) over linearised AST operations + CFG dominance of bounded copies",
+        design="5/C58"),
 }
 
 NOT_APPLICABLE = {
